@@ -676,7 +676,7 @@ type VerifyOpts struct {
 func (e *Engine) newUnit(fn *ssa.Function) *Unit {
 	u := &Unit{eng: e, w: newWorld(), fun: fn, name: unitName(fn), oblCount: map[string]int{}, heapSorts: map[string]string{}, heapElem: map[string]types.Type{},
 		hver: map[string]*heapVersion{}, frameDone: map[string]bool{}, ghostSort: map[string]string{}, notes: map[string]bool{}, inlined: map[string]bool{},
-		usedSpecs: map[string]bool{}, usedStd: map[string]bool{}, usedPure: map[string]bool{}, implIfaces: map[string]types.Type{}, assume: map[string]bool{}, usedContracts: map[string]bool{}, sliceConstLen: map[string]int{}}
+		usedSpecs: map[string]bool{}, usedStd: map[string]bool{}, usedPure: map[string]bool{}, implIfaces: map[string]types.Type{}, assume: map[string]bool{}, usedContracts: map[string]bool{}, sliceConstLen: map[string]int{}, usedInvs: map[string]bool{}}
 	return u
 }
 
@@ -705,7 +705,10 @@ func (e *Engine) verify(fn *ssa.Function, opts VerifyOpts) (u *Unit) {
 			case evalError:
 				u.unsup = "contract error: " + x.msg
 			default:
-				panic(r)
+				if os.Getenv("GOVC_PANIC") != "" {
+					panic(r)
+				}
+				u.unsup = fmt.Sprintf("internal error: %v", r)
 			}
 		}
 	}()
@@ -725,6 +728,7 @@ func (e *Engine) verify(fn *ssa.Function, opts VerifyOpts) (u *Unit) {
 	u.top = fr
 	// parameters
 	fr.ctVars = map[string]*Val{}
+	var paramInvs []func()
 	for i, p := range fn.Params {
 		n := quote("p:" + p.Name())
 		u.w.declFun(n, nil, u.w.sortOf(p.Type()))
@@ -736,6 +740,15 @@ func (e *Engine) verify(fn *ssa.Function, opts VerifyOpts) (u *Unit) {
 		fr.ctVars[p.Name()] = v
 		if ct != nil && i < len(ct.Params) {
 			fr.ctVars[ct.Params[i]] = v
+		}
+		if i == 0 && fn.Signature.Recv() != nil {
+			if _, isPtr := p.Type().Underlying().(*types.Pointer); isPtr {
+				u.fact(fmt.Sprintf("(distinct %s nil)", n))
+				u.assume["pointer receivers are non-nil (every static call site in the analysed packages is checked for it; callers outside are assumed to comply)"] = true
+			}
+		}
+		if invs := u.invsFor(p.Type()); len(invs) > 0 {
+			paramInvs = append(paramInvs, func() { u.assumeInv(fr, invs, v, st, "true") })
 		}
 		u.watch = append(u.watch, n)
 		u.watchName = append(u.watchName, p.Name())
@@ -750,6 +763,10 @@ func (e *Engine) verify(fn *ssa.Function, opts VerifyOpts) (u *Unit) {
 		}
 		fr.ctVars[fv.Name()] = v
 		_ = i
+	}
+	fr.entry = st
+	for _, f := range paramInvs {
+		f()
 	}
 	// frame checking?
 	if !opts.SweepOnly {
@@ -972,6 +989,10 @@ func (fr *Frame) applyContract(ct *Contract, callee *ssa.Function, recv *Val, ar
 	}
 	for _, en := range ct.Ensures {
 		u.fact(implies(st.pc, fr.evalBool(en, env, st, pre)))
+	}
+	for _, en := range ct.Names {
+		u.fact(implies(st.pc, fr.evalBool(en, env, st, pre)))
+		u.assume["verdict-naming clauses (names ...) of callee contracts are assumed: they presuppose that schema operations are deterministic functions of (schema, argument), which is what C12 decides"] = true
 	}
 	return res
 }
